@@ -66,6 +66,42 @@ def run_fast(st, variant, src, cap, accel, res, info, check_model=True):
     if stbuf: stbuf.free()
     return r, out
 
+
+def run_fr_history(st, srcs, params, res, info, check_model=True):
+    """A history of LZ4_compress_fast_extState_fastReset calls on ONE state (initStream once):
+    exact comparison with the model after every call; returns [(ret, out)]"""
+    lib, orc = st["lib"], st["oracle"]
+    stbuf = blk.junk_state(lib, "fast", info.get("junk", 1))
+    lib.initStream(stbuf.p, stbuf.n)
+    if check_model:
+        orc.ask("ctxinit")
+    outs = []
+    for k, (src, (cap, accel)) in enumerate(zip(srcs, params)):
+        n = len(src)
+        srcb = Buf(n, data=src); dstb = Buf(max(cap, 0), fill=0xC3)
+        r = lib.compress_fast_extState_fastReset(stbuf.p, srcb.p, dstb.p, n, cap, accel)
+        out = dstb.bytes(r) if 0 < r <= cap else b""
+        res["evals"] += 1
+        if check_model:
+            m = parse_model(orc.ask("fr", hx(src), str(cap), str(accel)))
+            cur, tt, ds, tab = ctx_fields(stbuf)
+            bad = None
+            if m["ret"] != r:
+                bad = "return value: model %d, code %d" % (m["ret"], r)
+            elif r > 0 and m["md5"] != md5(out):
+                bad = "output bytes differ (ret=%d)" % r
+            elif (str(cur), str(tt), str(ds), tab) != (m["cur"], m["tt"], m["dictSize"], m["tab"]):
+                bad = "context after call %d differs: code cur=%d tt=%d dictSize=%d, model cur=%s tt=%s dictSize=%s, table %s" % (
+                    k, cur, tt, ds, m["cur"], m["tt"], m["dictSize"], "same" if tab == m["tab"] else "differs")
+            if bad:
+                res["fails"].append({"status": "corr_fail", "what": "fastReset history model/code disagree at call %d: %s" % (k, bad),
+                                     "detail": dict(info, sizes=[len(x) for x in srcs], params=params)})
+                check_model = False
+        outs.append((r, out))
+        srcb.free(); dstb.free()
+    stbuf.free()
+    return outs
+
 def run_hc(st, variant, src, cap, level, res, info):
     lib = st["lib"]
     n = len(src)
